@@ -7,7 +7,9 @@
   compute the same system and to reject the same inputs (`C16_hom_run_eq_env_homogenize`), for all sizes and
   block layouts; the representations are related by `Ls.Env.HoldsProblem p mat cov tail`:
   `cov` was built by `add_block` from the blocks of `p` (`BlockDiag.Built`), `mat` is a well-formed sparse matrix
-  without repeated column indices whose dense reading (`Cov.denseRow`) is `p.dense`.
+  whose dense reading (`Cov.denseRow`) is `p.dense` and whose stored rows are the rows of `p`.  A column index may be
+  repeated inside a row (no `nodupRows` field any more: `Hom.run_spec` does not need it since the gather loop sums,
+  /repo 6d0f7107, and `Problem.dense` / `RowsOK` read a repeated column as the sum / only bound the range, round 11).
 
   Scalar structures: `Hom.run` is stated at C10's `Cov.fieldScalar K sq`, `homogenize`/`envSolve` at the solver
   theorems' `Ls.scalarOfField` (`= Gama.fieldScalar sq`), the packed kernels at C16's `ordFieldScalar K sq`; the first
@@ -74,8 +76,8 @@ theorem C16_hom_run_eq_env_homogenize (hsq : IsSqrt (Ls.SqrtFn.sq : K → K)) (p
     Chain: `C16_hom_run_eq_env_homogenize` → `Hom.run_export` (`out.sm.WF`, block patterns; Lemmas/HomRunExport.lean) →
     `hom_run_pattern` / `hom_run_graph` (Lemmas/HomPatBridge.lean) → `C16_normal_matrix_eq_ls` → `Ls.Env.ldl_congr` →
     `C16_envelope_refines_ls_dense` (also `n = 0`).
-    Hypotheses: square-root law; `RowsOK p` (no repeated column in a row, columns in `1..n`); `HoldsProblem` (`mat`, `cov`
-    hold the rows and blocks of `p`). -/
+    Hypotheses: square-root law; `RowsOK p` (columns in `1..n`; a column may be repeated in a row, its coefficients add up);
+    `HoldsProblem` (`mat`, `cov` hold the rows and blocks of `p`; no `nodupRows`). -/
 theorem C16_envsolve_packed (hsq : IsSqrt (Ls.SqrtFn.sq : K → K)) (p : Problem K) (hrowsOK : RowsOK p)
     (mat : SMat K) (cov : Cov.BlockDiag K) (tail : List K) (H : Env.HoldsProblem p mat cov tail) :
     ((∃ e, envSolve p = .error e) ↔
@@ -196,7 +198,7 @@ example : IsSqrt Real.sqrt := ⟨fun _ h => Real.mul_self_sqrt h, fun x _ => Rea
     matrix with rows `[(1,1)]`, `[(1,2),(2,1)]`, `[(2,3)]`, `rhs = (1,2,3)`, and the `Ls.Problem` with the same data -/
 example : (letI := Ls.exSqrtFn; Env.HoldsProblem Ls.exP Cov.runExMat Cov.runExCov []) := Ls.exHolds
 
-/-- … and its rows have no repeated column and columns in `1..n` (`RowsOK`, hypothesis of `C16_envsolve_packed`) -/
+/-- … and its rows have their columns in `1..n` (`RowsOK`, hypothesis of `C16_envsolve_packed`; here also no repeated column) -/
 example : RowsOK Ls.exP := Ls.exRowsOK
 
 /-- … and on it BOTH sides answer (premises `envSolve p = .ok a`, `Hom.run … = .ok out` of `C16_envsolve_packed` (2)–(4) and of
